@@ -4,7 +4,7 @@ import random
 from .. import tlc
 
 TRACE = "ThrottleObsTrace"
-NAMES = {"sub": "sub%d", "env": "env%d", "can": "can%d", "loop": "ThrottleExecutor-t", "obs": "main"}
+NAMES = {"sub": "sub%d", "env": "env%d", "can": "can%d", "loop": "ThrottleExecutor-t", "obs": "main", "ch": "main"}
 
 
 def converter(count, block):
@@ -27,6 +27,9 @@ def project(trace):
         ev = e["ev"]
         if ev in ("SubmitCall", "SubmitRet", "InvokeEnd", "End", "CancelCall", "CancelRet"):
             out.append([ev, e["f"], e["t"]])
+        elif ev in ("CountRet", "CountRaise", "CountChange"):
+            if not (ev == "CountRet" and e["r"] == "main"):      # the constructor's own call is part of Init in the spec
+                out.append([ev, -1, e["t"]])
         elif ev in ("DelegateSubmit",) and e["s"] == "tap":
             out.append([ev, e["f"], e["t"]])
         elif ev == "DelegateState" and e["s"] == "CANCELLED":
@@ -71,9 +74,12 @@ def run(ck):
     # 1. TLC: the model of the shipped code satisfies every clause but the recorded finding D6 ...
     ck.mc("Throttle", "Throttle.mc.cfg", timeout=3000)
     ck.mc("Throttle", "Throttle.mc2.cfg", timeout=3000)
+    for cfg in ("Throttle.dyn.cfg", "Throttle.dyn2.cfg", "Throttle.dyn3.cfg"):      # count callable: 1->2, 2->raises, 1->None
+        ck.mc("Throttle", cfg, timeout=3000)
     # 2. spec -> code replay
     for cfg, cnt, blk, n in (("Throttle.sim.cfg", 1, True, 40 if quick else 400),
-                             ("Throttle.sim2.cfg", 2, False, 40 if quick else 400)):
+                             ("Throttle.sim2.cfg", 2, False, 40 if quick else 400),
+                             ("Throttle.simdyn.cfg", {"script": [[0, 1], [150, 2]]}, False, 30 if quick else 300)):
         behs = tlc.simulate_behaviours("Throttle", cfg, n, 120, ck.seed + 1, timeout=900)
         ck.replay_behaviours(behs, converter(cnt, blk), project, TRACE)
     # 3. code -> spec
